@@ -52,7 +52,7 @@ def check_roundtrip(case, ctx):
         tag = "version %#010x (%s)" % (v, s[:4])
         nodes = []
         for form, arg in (("str", s), ("bytes", raw), ("BytesIO", BytesIO(raw))):
-            st_, n = call(cls.parse, arg, testnet)
+            st_, n = call(cls.parse, s=arg, testnet=testnet) if form == "str" else call(cls.parse, arg, testnet)
             if st_ == "exc":
                 raise Violation("C07/parse/raised[%s]" % form, "%s.parse(%s of %s) raised %r" % (cls.__name__, form, tag, n))
             nodes.append((form, n))
@@ -84,6 +84,23 @@ def check_roundtrip(case, ctx):
                     leak = bool(got_raw) and ref.k.to_bytes(32, "big") in got_raw
                     raise Violation("C07/xpub/%s" % ("private-scalar-leaked" if leak else "differs"),
                                     "%s: extended_public_key(%#x) = %r, expected %s" % (what, vpub, xp, want_pub))
+        # a node derived from a parsed one whose ancestors are not kept alive serialises with its real parent fingerprint
+        if ref.depth < 255:
+            import gc
+            try:
+                rchild = R.ckd_priv(ref, 1) if private else R.ckd_pub(ref.neuter(), 1)
+            except R.Invalid:
+                rchild = None
+            if rchild is not None:
+                st_, child = call(lambda: cls.parse(s, testnet).ckd(1))
+                gc.collect()
+                if st_ == "exc":
+                    raise Violation("C07/derived/raised", "%s: parse(...).ckd(1) raised %r" % (tag, child))
+                want_c = b58.encode_check(rchild.payload(v, private))
+                st_, sc = call(child.extended_private_key if private else child.extended_public_key, version=v)
+                if st_ == "exc" or sc != want_c:
+                    raise Violation("C07/derived/serialisation-after-parent-dropped", "%s: child of a temporary parsed node "
+                                    "serialises as %r, expected %s" % (tag, sc, want_c))
         # a stream whose current position is not 0 (header already consumed, nodes back to back)
         stream = BytesIO(b"\xaa" * 5 + raw + raw[:40])
         stream.read(5)
@@ -194,6 +211,8 @@ def check_version(case, ctx):
             raise Violation("C07/version/constructor", "int(Version(%s, %d, testnet=%s)) = %r, expected %#x"
                             % (typ, purpose, testnet, iv, v))
         return
+    call(Version.bip, v)                 # a lookup of the flavour of an unknown version must not whitelist it
+    call(Version.valid_version, v)
     st_, ver = call(Version.parse, v)
     if st_ == "ok":
         raise Violation("C07/version/unknown-accepted", "Version.parse(%#x) returned %r" % (v, ver))
